@@ -15,7 +15,8 @@ MODULES = ["GroupbyVerif.Props.C14"]
 RULE = ("seeded random 1-3-key groupings with SPARSE label combinations, nulls in keys and values, boolean/no mask x {sum, count, size, min, max, mean} x margin "
         "settings {True, every subset of levels}; oracle: each result row is recomputed from the selected rows matching its non-'All' positions ('All' = "
         "any label); ordinary rows must equal the no-margins call; 'All' only at requested levels; crosstab with 1-2 row and column keys, values or "
-        "counts, margins in {False, True, 'row', 'column'}: every cell / margin recomputed from the rows; non-trivial = >= 2 keys with >= 2 labels each and "
+        "counts, margins in {False, True, 'row', 'column'}: every cell / margin recomputed from the rows; the per-group results of the plain call are "
+        "also fed to the Lean model of add_row_margin (driver op `margins`), which must return the same table of labels and numbers; non-trivial = >= 2 keys with >= 2 labels each and "
         "a missing combination; distinct = distinct (dataset, fn, margins)")
 ASSUMPTIONS = ["pandas reindex / groupby(level) / unstack are trusted library behaviour"]
 FNS = ["sum", "count", "size", "min", "max", "mean"]
@@ -158,6 +159,52 @@ def evaluate(case, drv):
                 missing = [w for w in want if w not in got]
                 if missing:
                     return bad(f"margin rows {sorted(map(str, missing))[:5]} present", sorted(map(str, got))[:12])
+            # correspondence with the Lean model of add_row_margin: fed with the per-group results of the plain call,
+            # the model must return the table the implementation returned (labels and numbers)
+            if plain_map:
+                def tok(lab):
+                    return ".".join("A" if a == "All" else str(a) for a in lab)
+
+                def as_int(v):
+                    if v == "_" or isinstance(v, str):
+                        return None
+                    return int(v) if float(v).is_integer() else False
+                if fn == "mean":
+                    sums = {dec(l): cv(v) for l, v in gb.sum(vals, mask=mask).items()}
+                    cnts = {dec(l): cv(v) for l, v in gb.count(vals, mask=mask).items()}
+                    data = {lab: (as_int(sums[lab]), as_int(cnts[lab])) for lab in plain_map}
+                    ok_ints = all(a not in (None, False) and b not in (None, False) for a, b in data.values())
+                    items = ";".join(f"{tok(l)}:{a}/{b}" for l, (a, b) in data.items())
+                    mfn = "mean"
+                else:
+                    data = {lab: as_int(v) for lab, v in plain_map.items()}
+                    ok_ints = all(v is not False for v in data.values()) and (fn in ("min", "max") or all(v is not None for v in data.values()))
+                    items = ";".join(f"{tok(l)}:{'_' if v is None else v}" for l, v in data.items())
+                    mfn = fn if fn in ("min", "max") else "sum"
+                if ok_ints:
+                    lv = "_" if case["margins"] is True else ",".join(str(int(x)) for x in case["margins"])
+                    ans = drv.ask(f"margins fn={mfn} n={nk} levels={lv} data={items}")
+                    res["tags"].append("model-tie")
+                    if ans["model"] != ans["spec"]:
+                        return bad(f"spec {ans['spec']}", f"model {ans['model']}", note="model of add_row_margin != aggregate of summarised rows")
+                    model = {}
+                    for t in ([] if ans["model"] == "-" else ans["model"].split("|")):
+                        l, v = t.split(":")
+                        lab = tuple("All" if a == "A" else int(a) for a in l.split("."))
+                        if mfn == "mean":
+                            a, b = v.split("/")
+                            model[lab] = None if b in ("_", "0") else Fraction(int(a), int(b))
+                        else:
+                            model[lab] = None if v == "_" else int(v)
+                    if set(model) != set(got):
+                        res.update(verdict="disagreement", detail=dict(case=case, model=sorted(map(str, model)), actual=sorted(map(str, got)),
+                                                                       note="add_row_margin: set of result labels differs from the model"))
+                        return res
+                    for lab, e in model.items():
+                        if not same(got[lab], e):
+                            res.update(verdict="disagreement", detail=dict(case=case, model=f"{lab}: {e}", actual=f"{lab}: {got[lab]}",
+                                                                           note="add_row_margin: value differs from the model"))
+                            return res
         else:
             nrow = case["nrow"]
             index = keys[:nrow] if nrow > 1 else keys[0]
